@@ -29,6 +29,11 @@ Grow(d) == LET n  == Len(d)
                by == IF n < GMIN THEN GMIN ELSE IF n >= GMAX THEN GMAX ELSE n
            IN d \o [i \in 1..by |-> 0]
 
+\* the same rule on lengths only, and the capacities (in words) a list that started with n0 words goes through
+GrowLen(n) == n + (IF n < GMIN THEN GMIN ELSE IF n >= GMAX THEN GMAX ELSE n)
+RECURSIVE CapSchedule(_, _)
+CapSchedule(n0, k) == IF k = 0 THEN <<>> ELSE <<GrowLen(n0)>> \o CapSchedule(GrowLen(n0), k - 1)
+
 RECURSIVE GrowUntil(_, _)
 GrowUntil(d, idx) == IF idx >= Len(d) THEN GrowUntil(Grow(d), idx) ELSE d
 
